@@ -331,4 +331,76 @@ Section Sim.
       apply Forall2_app; [|constructor; assumption].
       apply Forall2_rev_local. constructor; assumption.
   Qed.
+
+  (** *** [Simplifier::simplify] and histories *)
+  Lemma simplify_cached_sim : forall fuel c m a e, Inv c m a ->
+    match simplify_cached fuel a e, simplify_cached_r o fuel c m e with
+    | (a', s), (c', m', s') => s = s' /\ Inv c' m' a' /\ ctx_ext c c'
+    end.
+  Proof.
+    intros fuel c m a e I. unfold simplify_cached, simplify_cached_r.
+    destruct (intern c e) as [c0 r] eqn:In.
+    destruct (intern_spec _ _ _ _ (inv_wf _ _ _ I) In) as (W0 & X0 & Hr).
+    pose proof (Inv_ext c c0 m a I W0 X0) as I0.
+    assert (Forall2 (fun k x => node c0 k = Some x) [r] [e]) as T by (constructor; [exact Hr|constructor]).
+    pose proof (run_sim fuel c0 m a [r] [e] I0 T) as R.
+    destruct (run fuel a [e]) as [a1| |]; destruct (run_r o fuel c0 m [r]) as [c1 m1| | |]; cbn in R; try contradiction;
+      try (split; [reflexivity|split; [exact I|apply ctx_ext_refl]]).
+    destruct R as [I1 X1].
+    pose proof (node_ext _ _ _ _ X1 Hr) as Hr1.
+    pose proof (gfp_sim fuel c1 m1 a1 r e I1 Hr1) as G.
+    assert (ctx_ext c c1) as X by (eapply ctx_ext_trans; eassumption).
+    destruct (SimplifyCache.get_fixed_point fuel a1 e) as [a2 v|a2|];
+      destruct (ExprMeta.get_fixed_point o fuel m1 r) as [m2 kv|m2|]; cbn in G; try contradiction.
+    - destruct G as [I2 Hv]. rewrite Hv. split; [reflexivity|split; assumption].
+    - split; [reflexivity|split; assumption].
+    - split; [reflexivity|split; assumption].
+  Qed.
+
+  Lemma simplify_batch_sim : forall fuel es c m a, Inv c m a ->
+    match simplify_batch fuel a es, simplify_batch_r o fuel c m es with
+    | (a', rs), (c', m', rs') => rs = rs' /\ Inv c' m' a' /\ ctx_ext c c'
+    end.
+  Proof.
+    intros fuel es. induction es as [|e rest IH]; intros c m a I; cbn [simplify_batch simplify_batch_r].
+    - split; [reflexivity|split; [exact I|apply ctx_ext_refl]].
+    - pose proof (simplify_cached_sim fuel c m a e I) as H.
+      destruct (simplify_cached fuel a e) as [a1 s]. destruct (simplify_cached_r o fuel c m e) as [[c1 m1] s'].
+      destruct H as (Es & I1 & X1). subst s'. specialize (IH c1 m1 a1 I1).
+      destruct (simplify_batch fuel a1 rest) as [a2 rs]. destruct (simplify_batch_r o fuel c1 m1 rest) as [[c2 m2] rs'].
+      destruct IH as (Er & I2 & X2). subst rs'. split; [reflexivity|]. split; [exact I2|eapply ctx_ext_trans; eassumption].
+  Qed.
+
+  Lemma Inv_empty : forall m, (forall k, mo_get o m k = None) -> Inv [] m [].
+  Proof.
+    intros m H. split; [exact ctx_wf_nil| |].
+    - intros k v G. rewrite H in G. discriminate.
+    - intro e. reflexivity.
+  Qed.
 End Sim.
+
+(** ** the statement for the two containers of meta.rs *)
+Definition cache_rel {M : Type} (o : map_ops M) (c : ctx) (m : M) (a : cache) : Prop := Inv M o c m a.
+
+Theorem refs_driver_refines_tree_driver : forall (fuel : nat) (es : list expr),
+  match simplify_batch fuel [] es, simplify_batch_dense fuel es, simplify_batch_sparse fuel es with
+  | (a, rs), (cd, d, rd), (cs, s, rs') =>
+      rd = rs /\ rs' = rs /\ cache_rel dense_ops cd d a /\ cache_rel sparse_ops cs s a
+  end.
+Proof.
+  intros fuel es. unfold simplify_batch_dense, simplify_batch_sparse.
+  pose proof (simplify_batch_sim _ dense_ops dense_ops_lawful fuel es [] dense_empty [] (Inv_empty _ dense_ops dense_empty (fun k => eq_refl))) as Hd.
+  pose proof (simplify_batch_sim _ sparse_ops sparse_ops_lawful fuel es [] sparse_empty [] (Inv_empty _ sparse_ops sparse_empty (fun k => eq_refl))) as Hs.
+  destruct (simplify_batch fuel [] es) as [a rs].
+  destruct (simplify_batch_r dense_ops fuel [] dense_empty es) as [[cd d] rd].
+  destruct (simplify_batch_r sparse_ops fuel [] sparse_empty es) as [[cs s] rs'].
+  destruct Hd as (E1 & I1 & _). destruct Hs as (E2 & I2 & _). subst. auto.
+Qed.
+
+(** one call from related states (an instance with any past), any lawful container *)
+Theorem refs_call_refines_tree_call : forall (M : Type) (o : map_ops M), ops_lawful o ->
+  forall (fuel : nat) (c : ctx) (m : M) (a : cache) (e : expr), cache_rel o c m a ->
+  match simplify_cached fuel a e, simplify_cached_r o fuel c m e with
+  | (a', s), (c', m', s') => s = s' /\ cache_rel o c' m' a' /\ ctx_ext c c'
+  end.
+Proof. intros M o L fuel c m a e I. apply simplify_cached_sim; assumption. Qed.
